@@ -1,11 +1,11 @@
 package main
 
 import (
-	"sort"
 	"fmt"
 	"go/ast"
 	"go/token"
 	"go/types"
+	"sort"
 	"strings"
 
 	"golang.org/x/tools/go/ssa"
@@ -35,6 +35,9 @@ func checkC08(c *Ctx, r *Report) {
 	c08Bitmap(c, r)
 	c08OctetCap(c, r)
 	txtEmptyList(c, r, "C08.R1.txt-empty", "a TXT-like record without strings then packs one octet while its length method predicts none: Len() is short by one per such record and Pack() fails for lack of space once the one octet of slack is used up")
+	lenNoRdlength(c, r, "C08.R1.len-no-rdlength")
+	c08StringCap(c, r, "C08.R3.string-cap")
+	packMapThreaded(c, r, "C08.R2.pack-map", "Len() under-counts the message and Pack fails for lack of room")
 }
 
 func c08Header(c *Ctx, r *Report) {
